@@ -283,8 +283,8 @@ def self_test():
 
 def explore(ctx):
     self_test()
-    N, M = (120, 24) if ctx.thorough else (40, 12)
-    S, C = (8, 10) if ctx.thorough else (6, 8)
+    N, M = (300, 40) if ctx.thorough else (120, 24)
+    S, C = (10, 12) if ctx.thorough else (8, 10)
     ctx.bounds = {'chunk_bounds': {'n<=': N, 'chunk<=': M}, 'excerpts': {'n<=': N, 'n_excerpts<=': 6,
                                                                          'size<=': 6},
                   'file_sizes': {'files<=': 3, 'size<=': S, 'chunk<=': C},
@@ -303,11 +303,12 @@ def explore(ctx):
     sizes = []
     for k in (1, 2, 3):
         sizes += [list(s) for s in itertools.product(range(1, S + 1), repeat=k)]
+    sizes += [list(s) for s in itertools.product(range(1, (5 if ctx.thorough else 4) + 1), repeat=4)]
     ctx.run_cases(run_case, [{'kind': 'sizes', 'sizes': s, 'C': C, 'fill': ctx.seed,
                               'offset': [0, 5][i % 2]} for i, s in enumerate(sizes)],
                   sweep='file-sizes')
-    nmax = 10 if ctx.thorough else 8
-    dts = ['int16', 'float32'] if ctx.thorough else ['int16']
+    nmax = 14 if ctx.thorough else 10
+    dts = ['int16', 'float32']
     ctx.run_cases(run_case, [{'kind': 'cbin', 'n': n, 'fill': ctx.seed, 'dtype': dt}
                              for n in range(1, nmax + 1) for dt in dts], chunk=1, sweep='cbin')
 
